@@ -38,6 +38,9 @@ def build_operands(case, layout):
     *values* of later operands are whatever the shared memory holds - only mutation is judged here."""
     dt = np.dtype(case["dtype"])
     arrs = [gen.arr(x["v"], x["shape"], dt) for x in case["xs"]]
+    if case.get("generic"):
+        # the grid values k/8 * 2^s are exact under most rearrangements; scaled by 4/3 and 7/9 they are not
+        arrs = [(a.astype(np.float64) * (4.0 / 3.0 if i % 2 == 0 else 7.0 / 9.0)).astype(dt) for i, a in enumerate(arrs)]
     rg = case["rg"]
     if layout == "independent":
         buf = None
@@ -191,6 +194,7 @@ def mut_case(draw, op):
     c["second"] = draw(st.booleans())
     c["second_seed"] = draw(st.sampled_from(["fresh", "first_root_grad"]))
     c["stale"] = draw(st.booleans())
+    c["generic"] = draw(st.integers(0, 3)) == 0      # values with full mantissas: (a - m) + m is not a
     if draw(st.integers(0, 2)) == 0:
         # exact zeros (and repeated values) are in every op's domain as far as mutation is concerned
         for x in c["xs"]:
@@ -245,6 +249,64 @@ def check_rebuild(c, rec):
             raise Violation("not_repeatable", f"rebuilding the same program changed the bits of the leaf's gradient (rebuild {r}): "
                                               f"{np.frombuffer(first[1], dtype=dt).tolist()} vs {np.frombuffer(again[1], dtype=dt).tolist()}; {c}",
                             region="rebuild_grad")
+
+
+# ---- raw NumPy arrays as the non-Tensor operand of an operator ------------------------------------------------------
+@st.composite
+def ndarray_operand_cases(draw):
+    shp = draw(gen.shapes(0, 3, 30))
+    return {"shape": shp, "v": draw(gen.grid_away_from_zero(shp)), "w": draw(gen.grid_away_from_zero(shp)), "dtype": draw(gen.DTYPES),
+            "same_dtype": draw(st.booleans()), "op": draw(st.sampled_from(["div", "div", "mul", "add", "sub", "rdiv", "matmul"])),
+            "view": draw(st.booleans()), "rg": draw(st.booleans())}
+
+
+def check_ndarray_operand(c, rec):
+    dt = np.dtype(c["dtype"])
+    other = dt if c["same_dtype"] else np.dtype(np.float32 if dt == np.float64 else np.float64)
+    t = Tensor(gen.arr(c["v"], c["shape"], dt), requires_grad=c["rg"])
+    base = np.zeros(int(np.prod(c["shape"])) + 2, dtype=other)
+    w = gen.arr(c["w"], c["shape"], other) * (4.0 / 3.0)
+    if c["view"]:
+        base[1:1 + w.size] = w.ravel()
+        arr = base[1:1 + w.size].reshape(c["shape"])
+    else:
+        arr = w.astype(other)
+    rec.nontrivial(c["same_dtype"])
+    rec.tag(c["op"])
+    snap, bsnap = _snap(arr), _snap(base)
+    tsnap = _snap(t.data)
+    outs = []
+    for _ in range(2):
+        try:
+            if c["op"] == "div":
+                out = t / arr
+            elif c["op"] == "mul":
+                out = t * arr
+            elif c["op"] == "add":
+                out = t + arr
+            elif c["op"] == "sub":
+                out = t - arr
+            elif c["op"] == "rdiv":
+                out = (arr.tolist() if True else arr) / t
+            else:
+                if len(c["shape"]) != 2 or c["shape"][0] != c["shape"][1]:
+                    rec.skip = "not_square"
+                    return
+                out = t @ arr
+        except Exception:  # noqa: BLE001
+            rec.skip = "rejected"
+            return
+        outs.append(np.asarray(out.data).tobytes())
+        if _snap(arr) != snap or _snap(base) != bsnap:
+            raise Violation("operand_modified", f"`tensor {c['op']} ndarray` changed the caller's NumPy array; {c}", region="ndarray_operand")
+        if _snap(t.data) != tsnap:
+            raise Violation("operand_modified", f"`tensor {c['op']} ndarray` changed the tensor; {c}", region="ndarray_operand")
+    if outs[0] != outs[1]:
+        raise Violation("not_repeatable", f"repeating `tensor {c['op']} ndarray` gave other bits; {c}", region="ndarray_operand")
+    if c["rg"]:
+        out.backward(Tensor(np.ones(out.shape, dtype=out.dtype)))
+        if _snap(arr) != snap or _snap(base) != bsnap:
+            raise Violation("operand_modified", f"backward of `tensor {c['op']} ndarray` changed the caller's NumPy array; {c}", region="ndarray_operand")
 
 
 # ---- clone / detach -----------------------------------------------------------------------------
@@ -376,6 +438,7 @@ def subchecks():
     for op in nnops.OPS + [nnops.DROPOUT]:
         subs.append(SubCheck("nn_" + op.name, make_check(op), (lambda op=op: mut_case(op)),
                              quick=150 if op.name in heavy else 200, thorough=2000, shards_quick=1, shards_thorough=2))
+    subs.append(SubCheck("ndarray_operands", check_ndarray_operand, ndarray_operand_cases, quick=300, thorough=3000))
     subs.append(SubCheck("rebuild_repeat", check_rebuild, rebuild_cases, quick=150, thorough=2000))
     subs.append(SubCheck("clone_detach", check_copy, copy_cases, quick=400, thorough=5000))
     subs.append(SubCheck("documented_inplace", check_inplace, inplace_cases, quick=200, thorough=2000))
